@@ -21,7 +21,7 @@ def run(tier, chk):
     chk.distinct_nontrivial = len(scns)
     chk.rule = ("sending: every builder configuration (booleans x grease x two numeric settings over 11 boundary values incl. 2^62 and 2^64-1) for both roles; "
                 f"receiving: SETTINGS payloads of up to {n} entries over 14 identifiers x 7 values (+ non-minimal varint forms), truncated at every byte, both roles, followed by a probe "
-                "message whose size straddles the advertised limit")
+                "message whose size straddles the advertised limit; every known identifier listed twice")
     chk.assumptions = ["an omitted setting counts as its protocol default (effective values are compared)",
                        "a configured value >= 2^62 may be refused cleanly or clamped to 2^62-1"]
 
